@@ -137,7 +137,14 @@ type tnode struct {
 	addr string
 }
 
-func newTnode() *tnode {
+func newTnode() (t *tnode) {
+	retryBind(func() { t = newTnode1() })
+	return t
+}
+
+func newTnode1() *tnode {
+	pnetMu.Lock()
+	defer pnetMu.Unlock()
 	nk := p2p.NodeKey{PrivKey: ed25519.GenPrivKeyFromSecret([]byte("c17-accept-node"))}
 	addr := freeAddr()
 	ni := accNodeInfo(nk.ID(), addr, accNetwork)
@@ -196,13 +203,22 @@ func acceptChildMain() {
 	flag.CommandLine.Parse(nil) //nolint // MakeSwitch asks testing.Verbose(), which wants parsed flags
 	c := tmcfg.DefaultP2PConfig()
 	c.AllowDuplicateIP = true
-	sw := p2p.MakeSwitch(c, 0, accNetwork, "0.34.24", func(i int, sw *p2p.Switch) *p2p.Switch {
+	var sw *p2p.Switch
+	retryBind(func() { sw = makeAcceptSwitch(c) })
+	acceptChildLoop(sw)
+}
+
+func makeAcceptSwitch(c *tmcfg.P2PConfig) *p2p.Switch {
+	return p2p.MakeSwitch(c, 0, accNetwork, "0.34.24", func(i int, sw *p2p.Switch) *p2p.Switch {
 		sw.SetAddrBook(&p2p.AddrBookMock{Addrs: map[string]struct{}{}, OurAddrs: map[string]struct{}{}})
 		r := &recReactor{got: map[p2p.ID][]string{}, changed: make(chan struct{}, 1)}
 		r.BaseReactor = *p2p.NewBaseReactor("C17Recorder", r)
 		sw.AddReactor("c17rec", r)
 		return sw
 	})
+}
+
+func acceptChildLoop(sw *p2p.Switch) {
 	sw.SetLogger(nopLogger)
 	if err := sw.Start(); err != nil {
 		fmt.Println("child-start-error", err)
